@@ -63,9 +63,9 @@ Definition describe (c : cls) : desc :=
   | AndersonDarlingTest => stat_test
   | BWSTest => stat_test
   | ChiSquareTest => stat_test
-  | CVMTest =>   (* X_ref setter overridden: _check_sufficient_samples INSTEAD OF _check_array;
-                    _specific_checks overridden: _check_sufficient_samples INSTEAD OF _check_compare_dimensions *)
-      {| d_family := FBatch; d_fit := [ChkFitDims true; ChkSamples]; d_cmp := [ChkFitted; ChkSamples];
+  | CVMTest =>   (* X_ref setter overridden: _check_array, then _check_sufficient_samples;
+                    _specific_checks overridden: super()._specific_checks, then _check_sufficient_samples *)
+      {| d_family := FBatch; d_fit := [ChkFitDims true; ChkArray; ChkSamples]; d_cmp := [ChkFitted; ChkCmpDims; ChkSamples];
          d_upd := []; d_kernel := false |}
   | KSTest => stat_test
   | KuiperTest => stat_test
@@ -84,6 +84,13 @@ Definition describe (c : cls) : desc :=
       {| d_family := FIKS; d_fit := [ChkFitDims true]; d_cmp := []; d_upd := [ChkFitted]; d_kernel := false |}
   | MMDStreaming =>                                       (* streaming, MultivariateData(); wraps a batch MMD *)
       {| d_family := FMMDs; d_fit := [ChkFitDims false]; d_cmp := []; d_upd := [ChkFitted]; d_kernel := false |}
+  end.
+
+Fixpoint list_eqb (a b : list nat) : bool :=
+  match a, b with
+  | [], [] => true
+  | x :: a', y :: b' => (x =? y) && list_eqb a' b'
+  | _, _ => false
   end.
 
 Section Batch.
@@ -114,12 +121,14 @@ Section Batch.
   Definition shape1 (a : arr) : option nat := nth_error (a_shape a) 1.
 
   (** _check_fit_dimensions:
+        if X.ndim > 2: raise DimensionError
         try:    if not dim_check(X.shape[1], 1): raise DimensionError
         except IndexError: if not dim_check(X.ndim, 1): raise DimensionError *)
   Definition dim_check (univariate : bool) (v : nat) : bool := if univariate then v =? 1 else 1 <=? v.
 
   Definition chk_fit_dims (univariate : bool) (X : arr) : res unit :=
     if negb (a_attr X) then Raise AttributeError else
+    if 2 <? ndim X then Raise DimensionError else
     match shape1 X with
     | Some k => if dim_check univariate k then Ok tt else Raise DimensionError
     | None => if dim_check univariate (ndim X) then Ok tt else Raise DimensionError
@@ -141,26 +150,16 @@ Section Batch.
     match ref with None => Raise MissingFitError | Some _ => Ok tt end.
 
   (** _check_compare_dimensions:
-        try:    if self.X_ref.shape[1] != X.shape[1]: raise MismatchDimensionError
-        except IndexError: if self.X_ref.ndim != X.ndim: raise MismatchDimensionError
-      (operands evaluated left to right) *)
+        if self.X_ref.ndim != X.ndim or self.X_ref.shape[1:] != X.shape[1:]: raise MismatchDimensionError
+      (operands evaluated left to right; a slice never raises IndexError) *)
   Definition chk_cmp_dims (ref : option arr) (X : arr) : res unit :=
     match ref with
     | None => Raise AttributeError
     | Some r =>
-      let handler :=
-        if negb (a_attr X) then Raise AttributeError
-        else if ndim r =? ndim X then Ok tt else Raise MismatchDimensionError in
       if negb (a_attr r) then Raise AttributeError else
-      match shape1 r with
-      | None => handler
-      | Some r1 =>
-        if negb (a_attr X) then Raise AttributeError else
-        match shape1 X with
-        | None => handler
-        | Some x1 => if r1 =? x1 then Ok tt else Raise MismatchDimensionError
-        end
-      end
+      if negb (a_attr X) then Raise AttributeError else
+      if negb (ndim r =? ndim X) then Raise MismatchDimensionError else
+      if list_eqb (tl (a_shape r)) (tl (a_shape X)) then Ok tt else Raise MismatchDimensionError
     end.
 
   Definition run_check (k : check) (ref : option arr) (X : arr) : res unit :=
@@ -333,20 +332,11 @@ Section Batch.
   Definition has_update (c : cls) : bool := match d_family (describe c) with FBatch => false | _ => true end.
   Definition uses_kernel (c : cls) : bool := match c with MMD | MMDStreaming => true | _ => false end.
   Definition univariate (c : cls) : bool := match c with MMD | MMDStreaming => false | _ => true end.
-  (* the class runs _check_compare_dimensions in compare *)
-  Definition checks_cmp_dims (c : cls) : bool :=
-    match c with CVMTest | IncrementalKSTest => false | _ => true end.
 
   Definition is_cmp (o : op) : bool := match o with Cmp _ => true | _ => false end.
   Definition is_fit (o : op) : bool := match o with Fit _ => true | _ => false end.
 
   (** "dimensionality" of a sample array: number of axes and the extent of every axis but the first *)
-  Fixpoint list_eqb (a b : list nat) : bool :=
-    match a, b with
-    | [], [] => true
-    | x :: a', y :: b' => (x =? y) && list_eqb a' b'
-    | _, _ => false
-    end.
   Definition same_dims (r X : arr) : bool := list_eqb (tl (a_shape r)) (tl (a_shape X)) && (ndim r =? ndim X).
   (* more than one value per sample *)
   Definition multi_column (X : arr) : bool := negb (forallb (fun k => k =? 1) (tl (a_shape X))).
